@@ -194,6 +194,12 @@ Definition s_step (ws : list atable) (p : op) : list atable * outcome :=
   | OConvert t conv exc => s_on ws t (fun o => s_put_table ws t (s_convert o conv exc))
   | OSetDtype t n dt => s_on ws t (fun o => s_put_table ws t (s_set_dtype o n dt))
   | OIndices t => s_on ws t (fun o => s_put_table ws t (s_indices o))
+  | OSetItemFrom t n src m =>      (* on VALUES: the column is copied *)
+      s_on ws t (fun o => s_on ws src (fun a =>
+        match assoc m (acols a) with
+        | Some b => s_put_table ws t (s_setitem o n b)
+        | None => (ws, Raised KeyError)
+        end))
   end.
 
 Fixpoint s_run (ws : list atable) (ops : list op) : list atable :=
